@@ -1,5 +1,6 @@
 import DriverLib.Ops
 import Gonnx.Graph.Validate
+import Gonnx.Graph.Decode
 /-
 Graph-level cases of the driver.
 -/
@@ -25,5 +26,26 @@ def runValidate (j : Json) : Answer :=
   match validateShapes decls params sup with
   | .ok () => { model := { status := "ok" } }
   | .error e => { model := .ofErr e }
+
+end Drv
+
+namespace Drv
+open Lean Gonnx
+
+def jsonIntList (j : Json) (k : String) : List Int := jsonInts (getArr j k)
+
+def parseTP (j : Json) : TensorProtoM :=
+  { dataType := getInt j "data_type", dims := jsonIntList j "dims",
+    floatData := jsonNats (getArr j "float_data"), int32Data := jsonIntList j "int32_data",
+    int64Data := jsonIntList j "int64_data", doubleData := jsonNats (getArr j "double_data"),
+    uint64Data := jsonNats (getArr j "uint64_data"), rawData := jsonNats (getArr j "raw") }
+
+def runDecode (j : Json) : Json :=
+  let tp := parseTP (getObj (getObj j "p") "tp")
+  match decode tp with
+  | .ok d => Json.mkObj [("status", "ok"), ("dt", dtToString d.dt),
+      ("shape", Json.arr (d.shape.map (fun (n : Nat) => toJson n)).toArray),
+      ("bits", Json.arr (d.bits.map (fun (n : Nat) => toJson n)).toArray)]
+  | .error e => errJson e
 
 end Drv
